@@ -107,11 +107,25 @@ func genSection(r *core.PRNG, kind string, tag int, pat *refts.PAT, pmt *refts.P
 	}
 }
 
+// genDescsLong draws a descriptor loop of 256 to about 600 bytes (every loop length field is
+// wider than 8 bits).
+func genDescsLong(r *core.PRNG) []refts.Desc {
+	var ds []refts.Desc
+	for total, want := 0, r.Range(256, 600); total < want; {
+		n := r.Range(60, 200)
+		ds = append(ds, refts.Desc{Tag: uint8(r.Range(0x80, 0xfe)), Data: r.Bytes(n)})
+		total += n + 2
+	}
+	return ds
+}
+
 func genSection1(r *core.PRNG, kind string, tag int, pat *refts.PAT, pmt *refts.PMT, big bool) refts.Section {
 	mul := 1
 	if big {
 		mul = r.Range(3, 7)
 	}
+	// one loop of the section longer than 255 bytes (which one: by kind, below)
+	long := big && !typedGarbage && r.Chance(1, 3)
 	s := refts.Section{Version: uint8(r.Intn(32)), Next: r.Chance(1, 10), SecNum: uint8(r.Intn(3)), LastSec: uint8(r.Intn(3) + 2)}
 	switch kind {
 	case "PAT":
@@ -127,6 +141,16 @@ func genSection1(r *core.PRNG, kind string, tag int, pat *refts.PAT, pmt *refts.
 		for i := 0; big && i < mul*4; i++ {
 			p.Streams = append(p.Streams, refts.PMTStream{Type: streamTypes[r.Intn(len(streamTypes))], PID: uint16(r.Range(0x20, 0x1ffe)), Descs: genDescs(r, 30)})
 		}
+		if long {
+			if r.Bool() || len(p.Streams) == 0 {
+				p.ProgDescs = append(genDescsLong(r), p.ProgDescs[len(p.ProgDescs)-1])
+			} else {
+				k := r.Intn(len(p.Streams))
+				st := p.Streams[k]
+				st.Descs = genDescsLong(r)
+				p.Streams[k] = st
+			}
+		}
 		s.PMT = &p
 	case "SDT":
 		t := &refts.SDT{Other: r.Chance(1, 4), TSID: uint16(tag), ONID: uint16(r.Intn(65536))}
@@ -134,12 +158,30 @@ func genSection1(r *core.PRNG, kind string, tag int, pat *refts.PAT, pmt *refts.
 		for i := 0; i < n; i++ {
 			t.Services = append(t.Services, refts.SDTService{ID: uint16(r.Intn(65536)), EITSched: r.Bool(), EITPF: r.Bool(), Running: uint8(r.Intn(8)), FreeCA: r.Bool(), Descs: genDescs(r, 24)})
 		}
+		if long && len(t.Services) > 0 {
+			t.Services[r.Intn(len(t.Services))].Descs = genDescsLong(r)
+		}
 		s.SDT = t
 	case "NIT":
 		t := &refts.NIT{Other: r.Chance(1, 4), NetworkID: uint16(tag), NetDescs: genDescs(r, 16)}
 		n := r.Pick(1, 4, 2) * mul
 		for i := 0; i < n; i++ {
 			t.TS = append(t.TS, refts.NITTS{TSID: uint16(r.Intn(65536)), ONID: uint16(r.Intn(65536)), Descs: genDescs(r, 16)})
+		}
+		if long {
+			switch r.Intn(3) {
+			case 0:
+				t.NetDescs = genDescsLong(r)
+			case 1:
+				// a transport stream loop longer than 255 bytes made of many short entries
+				for len(t.TS) < 45 {
+					t.TS = append(t.TS, refts.NITTS{TSID: uint16(r.Intn(65536)), ONID: uint16(r.Intn(65536))})
+				}
+			default:
+				if len(t.TS) > 0 {
+					t.TS[r.Intn(len(t.TS))].Descs = genDescsLong(r)
+				}
+			}
 		}
 		s.NIT = t
 	case "EIT":
@@ -167,6 +209,9 @@ func genSection1(r *core.PRNG, kind string, tag int, pat *refts.PAT, pmt *refts.
 		return refts.Section{TDT: &refts.TDT{UTC: genTime(r)}}
 	case "TOT":
 		s.TOT = &refts.TOT{UTC: 63072000 + int64(tag)*86400 + int64(r.Intn(86400)), Descs: genDescs(r, 12)}
+		if long {
+			s.TOT.Descs = genDescsLong(r)
+		}
 	}
 	return s
 }
